@@ -438,7 +438,9 @@ fn gen_analyse_text(rng: &mut Rng, c: &Ctx, thorough: bool) -> (String, &'static
         if let Some(b) = &c.bad_text { return (format!("{}{}", if rng.chance(1, 2) { word(rng) } else { String::new() }, b), "bad"); }
         return (format!("{}\u{378}\u{7}𠮷Ω", short(rng, 4)), "odd");
     }
-    if k < 94 && thorough { return ("あ".repeat(16383), "at-limit"); }
+    // the list-based Lean model of the lattice is quadratic in the text length (75 s for 16383 characters): at-limit
+    // texts are rare, 4000-character texts stand in for them otherwise
+    if k < 94 && thorough { return if rng.chance(1, 12) { ("あ".repeat(16383), "at-limit") } else { ("あ".repeat(4000), "long-4000") }; }
     if k < 97 { let reps = rng.range(30, 60); return ((0..reps).map(|_| short(rng, 8)).collect(), "long"); }
     (word(rng), "word")
 }
